@@ -96,8 +96,19 @@ impl J {
 }
 
 pub fn hex_decode(s: &str) -> Vec<u8> {
+    fn nib(c: u8) -> u8 {
+        match c {
+            b'0'..=b'9' => c - b'0',
+            b'a'..=b'f' => c - b'a' + 10,
+            _ => 0,
+        }
+    }
     let b = s.as_bytes();
-    (0..b.len() / 2)
-        .map(|i| u8::from_str_radix(std::str::from_utf8(&b[2 * i..2 * i + 2]).unwrap(), 16).unwrap())
-        .collect()
+    let mut out = Vec::with_capacity(b.len() / 2);
+    let mut i = 0;
+    while i + 1 < b.len() {
+        out.push(nib(b[i]) << 4 | nib(b[i + 1]));
+        i += 2;
+    }
+    out
 }
